@@ -4,7 +4,7 @@
      * the BPair worklist of bezier_intersections (any fuel, any bbox function),
      * the de-duplication of polyroots as coded,
      * Path.intersect (collection, index(), joint de-duplication). *)
-From Coq Require Import ZArith List Bool Arith Lia.
+From Coq Require Import ZArith List Bool Arith Lia Field.
 From SVP Require Import Base.Num Base.Cplx Base.Poly Model.Bezier Model.Isect Proofs.IsectAlg.
 Import ListNotations.
 
@@ -438,3 +438,27 @@ Section DispatchFacts.
       cbn [imap map]; try rewrite imap_swap_swap; try reflexivity.
   Qed.
 End DispatchFacts.
+
+(* ------------------------------------------------------------------ *)
+Section BezLineComplete.
+  Context {K : Type} (N : Num K) (OK : NumFieldOK N).
+  Add Field KF3 : (Fth OK).
+  Hypothesis Heqb : forall x y : K, eqb N x y = true <-> x = y.
+
+  (* C12_bezier_line_complete: a common point B(t) = L(s) whose parameter t is in
+     the root list handed to the selection loop, and whose x-value passes the
+     closed range test, is reported as (t, s) *)
+  Theorem bezier_line_complete len bez l0 l1 roots t s :
+    deg123 bez -> len <> zero N -> cnorm2 N (csub N l1 l0) <> zero N ->
+    In t roots ->
+    bezier_point N bez t = line_point N l0 l1 s ->
+    leb N (zero N) (mul N s len) = true -> leb N (mul N s len) len = true ->
+    In (t, s) (bl_select N len bez l0 l1 roots).
+  Proof.
+    intros Hd Hl Hn Hin E H0 H1.
+    destruct (crossing_is_root N OK len bez l0 l1 t s Hd Hl Hn E) as [_ Hx].
+    pose proof (bl_select_complete N Heqb len bez l0 l1 roots t Hin) as B.
+    rewrite Hx in B. specialize (B H0 H1).
+    replace (div N (mul N s len) len) with s in B by (field; exact Hl). exact B.
+  Qed.
+End BezLineComplete.
